@@ -566,7 +566,14 @@ impl Prop for C14 {
         }
     }
     fn run_case(&self, _cfg: &RunCfg, idx: usize, rng: &mut Rng, out: &mut Out) {
-        let source = py::gen_any_source(rng, 5, 20);
+        // now and then one very long line: positions beyond column 65535 are positions too
+        let source = if idx % 61 == 7 {
+            out.feat("source_with_a_line_longer_than_65535_columns");
+            let n = 7000 + rng.below(1500);
+            format!("v = [{}last]\nw = v\n", "abcdefghij, ".repeat(n))
+        } else {
+            py::gen_any_source(rng, 5, 20)
+        };
         let tree = parse_python(&source);
         let ti = TreeInfo::new(&tree);
         if ti.anomaly.is_some() {
